@@ -10,7 +10,7 @@ from ..famrun import new_res
 
 ID = 'C10'
 LEVEL = 'model_checking'
-RULE = ('Part A (explicit-state search over call histories): for 9 configurations, every sequence of <= 3 (thorough 4) '
+RULE = ('Part A (explicit-state search over call histories): for 12 configurations (incl. several start symbols, and TextSlice input over texts released after each call with the next text steered to the released address), every sequence of <= 3 (thorough 4) '
         'operations from the per-configuration alphabet (parse ok / lexing error / syntax error / dedent error, lex consumed / '
         'abandoned / dont_ignore, scan consumed / abandoned, abandoned interactive session, other instances created) is executed '
         'on one instance; after every step the observation must equal that of the same operation on a fresh instance. '
@@ -53,6 +53,14 @@ def upper(t):
 
 PRIO = 'start: stmt+\nstmt: a | b\na.2: NAME\nb.1: NAME\nKW: "if"\nNAME: /[a-z]+/\n%ignore " "\n'
 
+MULTI = 'a: NAME (PLUS NAME)*\nb: NAME (COMMA NAME)* SEMI?\nNAME: /[a-z]+/\nPLUS: "+"\nCOMMA: ","\nSEMI: ";"\n%ignore " "\n'
+MULTI_TEXTS = {'a:ok': 'x + y', 'b:ok': 'x , y', 'a:bad': 'x x', 'b:bad': 'x , , y', 'a:bad-lex': 'x + 9', 'b:short': 'x ,', 'a:one': 'x', 'b:one': 'x'}
+SLICE_G = 'start: stmt+\nstmt: KW NAME | NAME\nKW: "if"\nNAME: /[a-z]+/\n%ignore /[ \\n-]+/\n'
+SLICE_START = 12
+# equal lengths (one allocation size class), different line structure before the slice
+SLICE_PARTS = {'n5': ('\n' * 5 + '-' * 7, 'ab if cd\nef gh'), 'n1': ('\n' + '-' * 11, 'if xy\nzz if q q'), 'n0': ('-' * 12, 'pq rs\ntu if vw'),
+               'n5bad': ('\n' * 5 + '-' * 7, 'ab if if 9\ncd gh')}
+
 CONFIGS = {
     # the instance is built from a lark Grammar *object* that later instances of the same history share
     'earley-shared-grammar': (PRIO, dict(parser='earley', lexer='basic', grammar_object=True)),
@@ -64,6 +72,11 @@ CONFIGS = {
     'earley-basic': (KW, dict(parser='earley', lexer='basic')),
     'earley-dynamic': (KW, dict(parser='earley', lexer='dynamic')),
     'cyk': (KW, dict(parser='cyk')),
+    # several start symbols: each call names one; the continuation sets of errors / sessions are part of the observation
+    'lalr-multistart': (MULTI, dict(parser='lalr', start=['a', 'b'])),
+    # TextSlice input with start > 0 over texts that are built for the call and released afterwards (the next text is
+    # steered to the address of the released one: object identity must not carry anything over)
+    'lalr-slice': (SLICE_G, dict(parser='lalr')),
     'lalr-indenter': (INDENT_G.replace('"("', 'LPAR').replace('")"', 'RPAR') + 'LPAR: "("\nRPAR: ")"\n', dict(parser='lalr', postlex='MyIndenter')),
 }
 
@@ -96,6 +109,41 @@ def canon_any(x):
     return obs.canon(x, pos=True)
 
 
+FULL_EXC = [False]     # part A observes the whole exception (token, expected / allowed / accepts sets), part B class and position
+
+
+class SliceTexts:
+    """Texts for the lalr-slice configuration: every operation gets a *new* str object.  In 'steer' mode the text of the
+    previous operation has been released and the new one is steered to its address (allocate same-sized strings until one
+    lands there, at most 64 tries); in 'hold' mode (reference observations) every text stays alive, so no address is reused."""
+    mode = 'hold'
+    alive = []
+    last_id = None
+    steered = 0
+
+    @classmethod
+    def make(cls, key):
+        pre, body = SLICE_PARTS[key]
+        assert len(pre) == SLICE_START
+        if cls.mode == 'hold':
+            t = ''.join([pre, body])
+            cls.alive.append(t)
+            return t
+        tries = []
+        t = ''.join([pre, body])
+        while cls.last_id is not None and id(t) != cls.last_id and len(tries) < 64:
+            tries.append(t)
+            t = ''.join([pre, body])
+        if id(t) == cls.last_id:
+            cls.steered += 1
+        del tries
+        return t
+
+    @classmethod
+    def release(cls, t):
+        cls.last_id = id(t)
+
+
 def guarded(fn):
     import threading
     if threading.current_thread() is not threading.main_thread():
@@ -109,7 +157,18 @@ def guarded(fn):
         return ('ok', r[1])
     if r[0] == 'hang':
         return ('hang',)
+    if FULL_EXC[0]:
+        return ('exc', obs.exc(r[1]), tuple(sorted(str(r[1])[:400].splitlines())) if obs.is_unexpected_input(r[1]) else ())   # set-valued parts of the message: order-free
     return ('exc', type(r[1]).__name__, getattr(r[1], 'pos_in_stream', None), str(getattr(r[1], 'line', None)), str(getattr(r[1], 'column', None)))
+
+
+def session(ip):
+    """Feed every token of an interactive session; observe the accepts() set before each token and at the end."""
+    out = [tuple(sorted(ip.accepts()))]
+    for t in ip.lexer_thread.lex(ip.parser_state):
+        ip.feed_token(t)
+        out.append((obs.tok(t), tuple(sorted(ip.accepts()))))
+    return out
 
 
 def op_run(p, cfg, op):
@@ -118,6 +177,30 @@ def op_run(p, cfg, op):
     kind, arg = op
     g, o = CONFIGS[cfg]
     lalr = o.get('parser') == 'lalr'
+    if kind.endswith('@'):      # lalr-multistart: arg = '<start>:<text key>'
+        st, text = arg.split(':')[0], MULTI_TEXTS[arg]
+        if kind == 'parse@':
+            return guarded(lambda: canon_any(p.parse(text, start=st)))
+        if kind == 'session@':
+            return guarded(lambda: session(p.parse_interactive(text, start=st)))
+        if kind == 'lex@':
+            return guarded(lambda: [obs.tok(t) for t in p.lex(text)])
+    if kind.endswith('/'):      # lalr-slice: arg = key of SLICE_PARTS; the text object lives for this call only
+        from lark.utils import TextSlice
+        text = SliceTexts.make(arg)
+        sl = TextSlice(text, SLICE_START, len(text))
+        try:
+            if kind == 'parse/':
+                return guarded(lambda: canon_any(p.parse(sl)))
+            if kind == 'lex/':
+                return guarded(lambda: [obs.tok(t) for t in p.lex(sl)])
+            if kind == 'scan/':
+                return guarded(lambda: [canon_any(m) for m in p.scan(sl)])
+            if kind == 'session/':
+                return guarded(lambda: session(p.parse_interactive(sl)))
+        finally:
+            SliceTexts.release(text)
+            del sl, text
     if kind == 'parse':
         return guarded(lambda: canon_any(p.parse(T[arg])))
     if kind == 'lex':
@@ -170,6 +253,10 @@ def op_run(p, cfg, op):
 def alphabet(cfg):
     g, o = CONFIGS[cfg]
     T = texts(cfg)
+    if cfg == 'lalr-multistart':
+        return [('parse@', k) for k in MULTI_TEXTS] + [('session@', k) for k in ('a:ok', 'b:ok', 'a:one', 'b:one', 'b:short')] + [('lex@', 'a:ok')]
+    if cfg == 'lalr-slice':
+        return [('parse/', k) for k in SLICE_PARTS] + [('lex/', 'n5'), ('lex/', 'n0'), ('scan/', 'n5'), ('scan/', 'n1'), ('session/', 'n1'), ('session/', 'n0')]
     ops = [('parse', 'ok'), ('parse', 'ok2'), ('parse', 'bad-lex'), ('parse', 'bad-syntax'), ('new', 'same'), ('new', 'other')]
     if T['bad-dedent']:
         ops += [('parse', 'bad-dedent'), ('parse', 'open')]
@@ -188,15 +275,19 @@ def alphabet(cfg):
 def part_a(cfg, depth, first_ops, res, only=None):
     ops = alphabet(cfg)
     fresh = {}
+    FULL_EXC[0] = True
+    SliceTexts.mode, SliceTexts.last_id = 'hold', None
     for op in ops:
         fresh[op] = op_run(mk(cfg), cfg, op)
         res['evals'] += 1
+    SliceTexts.mode = 'steer'
     seqs = [tuple(tuple(o) for o in only['history'])] if only else \
         [s for d in range(1, depth + 1) for s in itertools.product(ops, repeat=d) if s[0] in first_ops]
     for seq in seqs:
         p = mk(cfg)
         res['states'] += 1
         res['traces'] += 1
+        SliceTexts.last_id = None
         for i, op in enumerate(seq):
             got = op_run(p, cfg, op)
             res['transitions'] += 1
@@ -207,6 +298,11 @@ def part_a(cfg, depth, first_ops, res, only=None):
                                     'case': {'part': 'A', 'config': cfg, 'history': [list(o) for o in seq[:i + 1]], 'depth': depth},
                                     'expected': fresh[op], 'observed': got})
                 break
+    FULL_EXC[0] = False
+    if cfg == 'lalr-slice':
+        res['counters']['lalr-slice: operations whose text was placed at the address of the released previous text'] += SliceTexts.steered
+        SliceTexts.steered = 0
+        del SliceTexts.alive[:]
     if len(res['samples']) < 1 and seqs:
         res['samples'].append({'config': cfg, 'history': [list(o) for o in seqs[len(seqs) // 2]], 'every_step_equal_to_fresh_instance': True})
 
